@@ -11,6 +11,9 @@ variable {α : Type}
 
 theorem c14_translated : Verif.Gen.Timing.translatable = true ∧ 0 < Verif.Gen.Timing.pollMs := by decide
 
+/-- the polling interval of the receive loop is the documented 0.5 s -/
+theorem c14_poll_interval_documented : Verif.Gen.Timing.pollMs = 500 := by decide
+
 /-- A pending request ends no later than its timeout, whatever the traffic. -/
 theorem c14_deadline (R : Int → Bool) (cfg : Cfg α) (ev : List (Nat × In α)) :
     (run R cfg ev).time ≤ cfg.D := by
